@@ -71,7 +71,8 @@ def parse_notice(site):
 
 
 class Resolver:
-    """addresses -> function names (addr2line on the non-PIE driver), cached"""
+    """return addresses -> function names (addr2line -i on the non-PIE driver, so that inlined
+    helpers such as coap_malloc_node are named the same under gcc and clang), cached"""
 
     def __init__(self, exe):
         self.exe = exe
@@ -80,13 +81,25 @@ class Resolver:
     def resolve(self, addrs):
         need = [a for a in addrs if a not in self.cache]
         if need:
-            p = subprocess.run(["addr2line", "-f", "-e", self.exe] + need, stdout=subprocess.PIPE)
-            ls = p.stdout.decode().split("\n")
+            # a return address belongs to the instruction after the call: look up address - 1
+            q = ["0x%x" % (int(a, 16) - 1) for a in need]
+            p = subprocess.run(["addr2line", "-f", "-i", "-a", "-e", self.exe] + q,
+                               stdout=subprocess.PIPE)
+            groups = []
+            for ln in p.stdout.decode().split("\n"):
+                if ln.startswith("0x"):
+                    groups.append([])
+                elif groups and ln and ":" not in ln.split("/")[0] and not ln.startswith("/") \
+                        and not ln.startswith("??:"):
+                    groups[-1].append(ln.strip())
             for i, a in enumerate(need):
-                self.cache[a] = ls[2 * i] if 2 * i < len(ls) else "??"
-        return [self.cache[a] for a in addrs]
+                self.cache[a] = groups[i] if i < len(groups) and groups[i] else ["??"]
+        out = []
+        for a in addrs:
+            out.extend(self.cache[a])
+        return out
 
-    def chain(self, bt, depth=3):
+    def chain(self, bt, depth=5):
         """function names of the libcoap part of a backtrace, innermost first"""
         names = self.resolve(bt)
         out = []
@@ -178,8 +191,16 @@ def verdicts(model, traces):
     return out
 
 
-def match_known(run, scenario, kind, chain, detail=""):
-    """known finding = (scenarios, kinds, site prefixes of the function chain, detail substring)"""
+def site_matches(site, chain):
+    """a known site (function names innermost first) matches when it is a contiguous part of
+    the chain of the failed allocation"""
+    a, b = site.split("<"), chain.split("<")
+    return any(b[i:i + len(a)] == a for i in range(len(b) - len(a) + 1))
+
+
+def match_known(run, scenario, kind, chains, detail=""):
+    """known finding = (scenarios, kinds, sites, detail substring); chains = the chains of the
+    injected failures of the run (one, or two for a pair)"""
     def sig(f):
         s = f.get("signature", {})
         scs = s.get("scenarios") or ([s["scenario"]] if s.get("scenario") else ["*"])
@@ -191,7 +212,7 @@ def match_known(run, scenario, kind, chain, detail=""):
         if s.get("detail") and s["detail"] not in detail:
             return False
         sites = s.get("sites") or ([s["site"]] if s.get("site") else [])
-        return any(chain == site or chain.startswith(site + "<") for site in sites)
+        return any(site_matches(site, c) for site in sites for c in chains)
     return run.match_known(sig)
 
 
@@ -241,6 +262,7 @@ def enumerate_variant(run, model, exe, variant, scen_list, pairs, stats, env=Non
         vs = verdicts(model, [d["trace"] if d["status"] == "OK" else "-" for d in ds])
         ninj = 0
         nfail = 0
+        single_keys = set()
         for (k1, k2), ln, d, v in zip(cases, lines, ds, vs):
             notices = parse_notice(d["site"])
             injected = len(notices)
@@ -274,15 +296,21 @@ def enumerate_variant(run, model, exe, variant, scen_list, pairs, stats, env=Non
             if not bad:
                 continue
             nfail += 1
+            chains = [rs.chain(nt["bt"]) for nt in notices] or ["?"]
             last = notices[-1] if notices else None
-            chain = rs.chain(last["bt"]) if last else "?"
             for kind, detail in bad:
-                key = (sc, kind, chain)
+                dkey = re.sub(r"\d+", "N", detail)[:60] if kind in ("wrong-result",) else ""
+                if k2 == 0:
+                    single_keys.add((kind, dkey, chains[0]))
+                elif any((kind, dkey, c) in single_keys for c in chains):
+                    run.hist("pair_failures", "explained by a single failure at the same site")
+                    continue            # nothing new: one of the two failures alone does this
+                key = (sc, kind, dkey, " & ".join(chains))
                 failures.setdefault(key, []).append(
-                    {"case": ln, "detail": detail, "status": d["status"], "verdict": v,
-                     "site": ("%s %s size %d" % (last["op"], MEMTAG[last["type"]] if last["type"] < len(MEMTAG)
-                                                 else last["type"], last["size"])) if last else "?",
-                     "backtrace": " <- ".join(rs.resolve(last["bt"])) if last else "?",
+                    {"case": ln, "detail": detail, "status": d["status"], "verdict": v, "chains": chains,
+                     "site": " & ".join("%s %s size %d" % (nt["op"], MEMTAG[nt["type"]] if nt["type"] < len(MEMTAG)
+                                                           else nt["type"], nt["size"]) for nt in notices) or "?",
+                     "backtrace": " || ".join(" <- ".join(rs.resolve(nt["bt"])) for nt in notices) or "?",
                      "res": d["res"][:600], "clean_res": c1["res"][:600]})
                 run.hist("failure_kind", kind)
             run.hist("site_type", MEMTAG[last["type"]] if last and last["type"] < len(MEMTAG) else "?")
@@ -300,9 +328,9 @@ def enumerate_variant(run, model, exe, variant, scen_list, pairs, stats, env=Non
 
 def report(run, failures, variant):
     nv = 0
-    for (sc, kind, chain), cs in sorted(failures.items()):
+    for (sc, kind, dkey, chain), cs in sorted(failures.items()):
         c = cs[0]
-        f = match_known(run, sc, kind, chain, c["detail"])
+        f = match_known(run, sc, kind, c["chains"], c["detail"])
         if f:
             run.known(f, "%s %s at %s (%d runs, e.g. '%s')" % (sc, kind, chain, len(cs), c["case"]))
             continue
